@@ -223,7 +223,7 @@ PROPS = {
                 "news file + fresh store; after every step every category's article list (strictly parsed by hlref), every article via "
                 "get-article, and every path's category listing are compared with a model tree; post oracle: exactly one new id not in use, "
                 "requested parent, prev == previously newest id, that article's next == new id, title/poster/body as posted; "
-                "stale-path action: list / get / post / delete / create requests whose path has a component that does not exist (inserted anywhere, or a missing parent followed by an existing name) must show nothing and leave the whole tree as it was; TestC18Burst: 2-8 users post 0..6000-byte articles (optionally replies) to one category at the same instant in 3-10 rounds, with a "
+                "operator-edit action: a top-level item is removed from the news file by hand and the file is reloaded into the running server, which must then hold what the file holds; stale-path action: list / get / post / delete / create requests whose path has a component that does not exist (inserted anywhere, or a missing parent followed by an existing name) must show nothing and leave the whole tree as it was; TestC18Burst: 2-8 users post 0..6000-byte articles (optionally replies) to one category at the same instant in 3-10 rounds, with a "
                 "concurrent delete of an older article; every accepted post present once under its own id with its content, older articles unchanged, "
                 "reload reproduces the category; non-trivial = >= 1 delete and >= 2 posts in the history (every step lists everything), every burst; distinct = hash(history)",
         "assumptions": ["creating over an existing name, replies to a missing parent and posts into a missing category are excluded (outside the statement / C03)",
